@@ -54,6 +54,19 @@ def histories(seed, n, quick):
         rts = [("Ref", "Msg"), ("Ref", "Tree"), ("Object", [("m", ("Ref", "Msg")), ("t", ("Array", ("Ref", "Tree")))], []), msg]
         calls = [r.randrange(len(rts)) for _ in range(r.randrange(2, 7))]
         out.append({"env": env, "rts": rts, "calls": calls})
+    # two different discriminated unions (same discriminator) sharing a structurally identical inline variant
+    for i in range(max(10, n // 6)):
+        d = r.choice(["kind", "type", "tag"])
+        extra = r.choice([[], [("meta", ("Ref", "Meta"))], [("meta", ("Ref", "Meta")), ("n", g.leaf())]])
+        va = ("Object", [(d, ("Const", "a"))] + extra, [])
+        vb = ("Object", [(d, ("Const", "b")), ("x", g.leaf())], [])
+        vc = ("Object", [(d, ("Const", "c")), ("y", g.leaf())], [])
+        ab = ("Disc", [va, vb], d, [("a", va), ("b", vb)], [("a", va), ("b", vb)])
+        ac = ("Disc", [va, vc], d, [("a", va), ("c", vc)], [("a", va), ("c", vc)])
+        env = [("Meta", ("Object", [("id", g.leaf())], [])), ("EvAB", ab), ("EvAC", ac)]
+        rts = [("Ref", "EvAB"), ("Ref", "EvAC"), ("Object", [("page", ac), ("m", ("Ref", "Meta"))], []), ("Array", ("Ref", "EvAB"))]
+        calls = r.sample([0, 1], 2) + [r.randrange(len(rts)) for _ in range(r.randrange(0, 4))]
+        out.append({"env": env, "rts": rts, "calls": calls})
     return out
 
 
